@@ -36,15 +36,16 @@ Print Assumptions C06_no_param_left.
 
 (* parameter propagation: if the parameters of the parent scope are resolved (closed), the
    "walk up one scope per round" loop of replace_parameter_references returns exactly the
-   substitution of the value by the parent's parameters, and the result is closed again *)
+   substitution of the value by the parent's parameters ([subst_d]: _replace_many_parameter_references WITH its
+   dictionary branch), and the result is closed again *)
 Theorem C06_refines_params : forall f scs cur ign v p v',
   needs_more ign v = true ->
   find_scope (parent_loc cur) scs = Some p ->
   closed_env ign (s_pars p) ->
-  subst (s_pars p) ign v = SOk v' -> well_shaped v' = true ->
+  subst_d (s_pars p) ign v = SOk v' -> well_shaped v' = true ->
   resolve_loop (S f) scs cur ign v = SOk v' /\ needs_more ign v' = false.
 Proof.
-  intros. split; [eapply resolve_one_round; eauto | eapply subst_closed; eauto].
+  intros. split; [eapply resolve_one_round; eauto | eapply subst_d_closed; eauto].
 Qed.
 Print Assumptions C06_refines_params.
 
@@ -180,6 +181,85 @@ Theorem C06_reject_entry_fault : forall N w,
   get_template N (n_entry N) = Some (TW w) -> wf_fault N [] w -> forall cis, compile N <> Ok cis.
 Proof. exact reject_entry_fault. Qed.
 Print Assumptions C06_reject_entry_fault.
+
+(* ---------------------------------------------------------------- value kinds in STRING CONTEXT: mappings *)
+(* ACCEPTANCE: a value that is nothing but a reference to a parameter bound to a mapping (dictionary) forwards the
+   mapping itself, at the scope level and at the component level alike *)
+Theorem C06_dict_forwarded_whole : forall env ign x vx,
+  mem x ign = false -> lookup x env = Some vx -> is_dict vx = true -> subst_d env ign [Param x] = SOk vx.
+Proof. exact subst_d_whole. Qed.
+Print Assumptions C06_dict_forwarded_whole.
+
+(* the dictionary branch changes nothing for a value the specification accepts ([dict_ok]: every reference to a
+   mapping is the sole content of its value): there the substitution is the plain one *)
+Theorem C06_dict_branch_conservative : forall e loc keep ign v,
+  dict_ok e keep v = true -> (forall x, In x (refs_of v) -> mem x ign = mem x keep) ->
+  subst_d e ign (map (abs_out loc) v) = subst e ign (map (abs_out loc) v).
+Proof. exact subst_d_ev. Qed.
+Print Assumptions C06_dict_branch_conservative.
+
+(* THE SPECIFICATION calls a value that splices a mapping into more text invalid, in a step argument (keep = [])
+   and in a component field (keep = the component's variables) *)
+Theorem C06_spec_dict_splice_invalid : forall e loc sib keep v,
+  dict_ok e keep v = false -> ev e loc sib keep v = None.
+Proof. intros e loc sib keep v H. unfold ev. rewrite H. reflexivity. Qed.
+Print Assumptions C06_spec_dict_splice_invalid.
+
+(* REJECTION, scope level (the arguments a workflow passes to a step, AT ANY DEPTH): if the value, read in the
+   parameters of the calling scope p, splices a mapping into more text ([dict_ref] = DSplice: the first reference
+   bound to a mapping is not alone), the walk up the scopes fails ... *)
+Theorem C06_dict_splice_rejected_value : forall f scs cur ign v p,
+  find_scope (parent_loc cur) scs = Some p -> dict_ref (s_pars p) ign true v = DSplice ->
+  resolve_loop (S f) scs cur ign v = SUnknown.
+Proof. exact resolve_loop_splice. Qed.
+Print Assumptions C06_dict_splice_rejected_value.
+
+(* ... and resolve_scope records the location <execute entry>/signature/parameters/i of that argument, whatever
+   the other arguments of the step are *)
+Theorem C06_dict_splice_rejected_scope : forall st sc p i n v,
+  In (i, (n, v)) (enum (s_pars sc)) ->
+  forallb (sibling_ok (rs_siblings (r_scopes st) sc)) v = true ->
+  find_scope (parent_loc (s_loc sc)) (r_scopes st) = Some p -> s_loc sc <> [] ->
+  dict_ref (s_pars p) ["replica"%string] true (absolutise (parent_loc (s_loc sc)) v) = DSplice ->
+  In (s_dsl sc ++ [LS "signature"; LS "parameters"; LN i]) (r_errs (resolve_scope st sc)).
+Proof. exact resolve_scope_splice. Qed.
+Print Assumptions C06_dict_splice_rejected_scope.
+
+(* REJECTION, component level: command.arguments that splice a mapping parameter of the component into more text
+   are reported at components/i/command/arguments *)
+Theorem C06_dict_splice_rejected_component : forall N sc c,
+  dict_ref (s_pars sc) (c_vars c) true (c_args c) = DSplice ->
+  comp_args N sc c = (c_args c, [comp_index N c ++ [LS "command"; LS "arguments"]], false).
+Proof. exact comp_args_splice. Qed.
+Print Assumptions C06_dict_splice_rejected_component.
+
+(* non-vacuity of the mapping theorems: a dictionary given at the entrypoint is forwarded whole through two
+   workflow levels into the parameter `environment` of a component (valid); spliced into the component's arguments
+   or into the argument a workflow passes to its step it is rejected at that field; the specification agrees.
+   The component has a VARIABLE called env: references in a step argument belong to the CALLER's scope, so
+   %(env)s in the arguments of the step is the workflow's parameter, not the component's variable. *)
+Definition ex_dict (cargs : value) (msg : value) : ns :=
+  {| n_entry := "main"; n_eargs := [("env", [Lit "{""MODE"": ""fast""}"])];
+     n_wfs := [ {| w_name := "main"; w_params := [("env", None)]; w_steps := [("inner", "nested")];
+                   w_exec := [("inner", [("env", [Param "env"])])] |};
+                {| w_name := "nested"; w_params := [("env", None)]; w_steps := [("run", "runner")];
+                   w_exec := [("run", [("environment", [Param "env"]); ("message", msg)])] |} ];
+     n_comps := [ {| c_name := "runner"; c_params := [("environment", None); ("message", None)]; c_vars := ["env"];
+                     c_args := cargs |} ] |}.
+Example C06_dict_example :
+  compile (ex_dict [Param "message"; Lit " ["; Param "env"; Lit "]"] [Lit "hello"])
+  = Ok [ {| ci_loc := ["entry-instance"; "inner"; "run"]; ci_id := (0%N, "run"); ci_refs := [];
+            ci_args := "hello [%(env)s]" |} ]
+  /\ check_refines (ex_dict [Param "message"; Lit " ["; Param "env"; Lit "]"] [Lit "hello"]) = true
+  /\ compile (ex_dict [Param "message"; Lit " --env "; Param "environment"] [Lit "hello"])
+     = Err [[LS "components"; LN 0; LS "command"; LS "arguments"]]
+  /\ spec_ns (ex_dict [Param "message"; Lit " --env "; Param "environment"] [Lit "hello"]) = None
+  /\ compile (ex_dict [Param "message"] [Lit "running with "; Param "env"])
+     = Err [[LS "workflows"; LN 1; LS "execute"; LN 0; LS "signature"; LS "parameters"; LN 1]]
+  /\ spec_ns (ex_dict [Param "message"] [Lit "running with "; Param "env"]) = None
+  /\ dict_ref [("env", [Lit "{""MODE"": ""fast""}"])] ["replica"%string] true [Lit "running with "; Param "env"] = DSplice
+  /\ subst_d [("env", [Lit "{""MODE"": ""fast""}"])] ["replica"%string] [Param "env"] = SOk [Lit "{""MODE"": ""fast""}"].
+Proof. vm_compute. repeat split; reflexivity. Qed.
 
 (* non-vacuity: tests/test_dsl.py dsl_step_via_param_more_complex — a partial reference <producer/producer>
    forwarded through a workflow parameter and completed one level down *)
